@@ -1,6 +1,7 @@
 import CC.Model.Prims
 import CC.Spec.Cover
 import CC.Model.Sym
+import CC.Model.Mac
 /-! # Line-protocol driver for the model
 
 One operation per input line, one canonical output line per input line. The Rust harness
@@ -214,6 +215,7 @@ def mpkOut (st : St) (k : Nat) (m : Msk) : St × String :=
 def step (st : St) (line : String) : St × String :=
   match line.trimAscii.toString.splitOn " " with
   | ["reset"] => ({}, "ok")
+  | ["noop"] => (st, "bad-op")
   | ["parse", h] =>
     -- the text is prefixed by `x` so that the empty string is a token too
     match strOfHex (String.ofList (h.toList.drop 1)) with
@@ -407,6 +409,20 @@ def step (st : St) (line : String) : St × String :=
         match (policyOf p).bind m.structure_.encRights with
         | .error e => (st, errLine e)
         | .ok rs => (st, "ok " ++ rightsStr rs)
+  | ["mac", cfg, a, b] =>
+    -- would `refresh` accept the user key `b`, given that `a` was issued (bytes of both)?
+    let c := if cfg == "p256" then Wire.cfgP256 else Wire.cfgC25519
+    match optBytes a, optBytes b with
+    | some (some a), some (some b) =>
+      match Wire.deserialize (Wire.usk c) a with
+      | none => (st, "bad-issued-key")
+      | some k0 =>
+        match Wire.deserialize (Wire.usk c) b with
+        | none => (st, "ok acc=0 unch=1 same_stream=0")
+        | some k =>
+          let same := decide (Mac.input k = Mac.input k0)
+          (st, "ok acc=" ++ (if Mac.acceptedLike k0 k then "1" else "0") ++ " unch=1 same_stream=" ++ (if same then "1" else "0"))
+    | _, _ => (st, "bad-op")
   | "tamper_enc" :: es :: ed :: _ =>
     -- any modification of an encapsulation: by the binding theorem (`CC.Props.C07`) the result
     -- passes no tag check; it is represented as an encapsulation nothing opens
